@@ -59,7 +59,7 @@ def check_order(cx, chk):
                 chk.violation("C16.order", "%s for-loop over unordered" % short(p),
                               "%s loops over an unordered container (%s)" % (short(p), gargs[:80]), cx.site(b, i))
     chk.ok("C16.order", "calls scanned", {"calls_scanned": n_calls})
-    chk.floor("C16.order", "generator calls scanned", n_calls, 4821)
+    chk.floor("C16.order", "generator calls scanned", n_calls, 2500)
     # data structures of the generator (not the bootstrap AST, which has no maps)
     nf = 0
     for p, adt in cg.adts.items():
@@ -148,7 +148,7 @@ def check_pure(cx, chk):
                 if st["k"] == "assign" and st["rv"]["k"] == "cast" and "Expose" in st["rv"]["kind"]:
                     chk.violation("C16.pure", "%s ptr-to-int" % short(p), "pointer-to-integer cast in code generation", cx.site(b, i))
     chk.ok("C16.pure", "reachable functions", {"functions": len(seen), "calls": n})
-    chk.floor("C16.pure", "functions reachable from code generation", len(seen), 300)
+    chk.floor("C16.pure", "functions reachable from code generation", len(seen), 180)
     # header: depends on its parameter and compile-time constants only
     hp = [p for p in cg.fns if last(p) == "generate_source_header"]
     if hp:
